@@ -13,7 +13,7 @@ ID = 'C10'
 LEVEL = 'exploration'
 WORKERS = {'quick': 6, 'thorough': 14}
 BUDGET_S = {'quick': 60, 'thorough': 400}
-REQUIRED_COUNTERS = ['aes_windows', 'aes_schedules', 'aes_inv_schedules', 'des_schedules', 'des_master_keys']
+REQUIRED_COUNTERS = ['aes_windows', 'aes_schedules', 'aes_inv_schedules', 'des_schedules', 'des_master_keys', 'history_calls']
 RULE = ('AES: every (key size, col_in in [0,total-Nk], col_out in [0,total]) triple x a batch of keys (random + structured: zeros, '
         'FF, walking byte) queried both as a batch and (sub-sampled) as single keys; key_schedule and inv_key_schedule from every '
         'round; DES: key_schedule for every interrupt_after_round on random + walking-one keys (single and batch), get_master_key '
@@ -53,6 +53,8 @@ def cases(tier, seed):
     for j in range(nkeys):
         for r0 in range(0, 16, 4):
             out.append(dict(gen='des_master', rounds=list(range(r0, r0 + 4)), sub=core.subseed('C10m', seed, j), must=(j == 0)))
+    for j in range(6 if tier == 'quick' else 150):
+        out.append(dict(gen='history', calls=60, sub=core.subseed('C10h', seed, j), must=j < 3))
     if tier == 'thorough':
         rs = np.random.default_rng(core.subseed('C10r', seed))
         for j in range(300):
@@ -184,4 +186,58 @@ def run_case(case):
         for c in REQUIRED_COUNTERS:
             t.count(c, 0)
         return t.result(sig=f"desm|{case['sub']}|{case['rounds']}", sample=dict(case=case, comparisons=t.checks))
+    if g == 'history':
+        # random call sequences on shared key buffers rewritten in place: a result must not depend on earlier calls
+        kb = {nk: np.zeros(nk, dtype='uint8') for nk in (16, 24, 32)}
+        dk, dkb = np.zeros(8, dtype='uint8'), np.zeros((3, 8), dtype='uint8')
+        log = []
+        for c in range(case['calls']):
+            op = ['aes_sched', 'aes_exp', 'des_sched', 'des_sched', 'des_sched_batch', 'aes_inv'][int(rng.integers(6))]
+            if op in ('aes_sched', 'aes_exp'):
+                nk = int(rng.choice([16, 24, 32]))
+                if rng.random() < 0.6:
+                    kb[nk][...] = rng.integers(0, 256, nk)
+                full = sum(A.expand(kb[nk].tolist()), [])
+                if op == 'aes_sched':
+                    got = np.asarray(scared.aes.key_schedule(kb[nk])).reshape(-1).tolist()
+                    exp = full
+                else:
+                    ncols, total = nk // 4, TOTAL[nk]
+                    ci = int(rng.integers(0, total - ncols + 1))
+                    co = int(rng.integers(0, total + 1))
+                    win = np.array(full[4 * ci: 4 * (ci + ncols)], dtype='uint8')
+                    got = np.asarray(scared.aes.key_expansion(win, col_in=ci, col_out=co)).reshape(-1).tolist()
+                    lo, hi = (ci, co) if ci < co else (co, ci + ncols)
+                    exp = full[4 * lo: 4 * hi]
+                    op = f'aes_exp({nk},{ci},{co})'
+            elif op == 'aes_inv':
+                if rng.random() < 0.6:
+                    kb[16][...] = rng.integers(0, 256, 16)
+                sched = A.expand(kb[16].tolist())
+                r = int(rng.integers(0, 11))
+                got = np.asarray(scared.aes.inv_key_schedule(np.array(sched[r], dtype='uint8'), round_in=r)).reshape(-1).tolist()
+                exp = sum(sched, [])
+                op = f'aes_inv({r})'
+            elif op == 'des_sched':
+                if rng.random() < 0.35:
+                    dk[...] = rng.integers(0, 256, 8)
+                r = int(rng.integers(0, 16))
+                got = np.asarray(scared.des.key_schedule(dk, interrupt_after_round=r)) if rng.random() < 0.8 or r != 15 else np.asarray(scared.des.key_schedule(dk))
+                exp = np.array(D.round_keys(dk.tolist())[:r + 1], dtype='uint8')
+                op = f'des_sched({r})'
+                got, exp = (got.tolist() if got.shape == exp.shape else ('shape', got.shape)), exp.tolist()
+            else:
+                if rng.random() < 0.35:
+                    dkb[...] = rng.integers(0, 256, (3, 8))
+                r = int(rng.integers(0, 16))
+                got = np.asarray(scared.des.key_schedule(dkb, interrupt_after_round=r))
+                exp = np.array([D.round_keys(k)[:r + 1] for k in dkb.tolist()], dtype='uint8')
+                op = f'des_sched_batch({r})'
+                got, exp = (got.tolist() if got.shape == exp.shape else ('shape', got.shape)), exp.tolist()
+            log.append(op)
+            t.count('history_calls')
+            t.check(got == exp, 'result_depends_on_earlier_calls', lambda: dict(case=case, call=c, history=log[-6:]))
+        for c in REQUIRED_COUNTERS:
+            t.count(c, 0)
+        return t.result(sig=f"hist|{case['sub']}", sample=dict(case=case, last_calls=log[-6:]))
     raise core.Inconclusive('unknown generator ' + g)
